@@ -256,6 +256,64 @@ func c15Run(raw json.RawMessage) harn.Result {
 	if !ok1 || !ok2 {
 		return res
 	}
+	// the same on a VM that was never given a seed (it shares the process-wide generator): the bounds are the same and the
+	// shared generator is left alone
+	for _, min := range []bool{true, false} {
+		cfg := base
+		cfg.Min, cfg.Max = min, !min
+		m := drv.NewVM(cfg)
+		if c.Pre != "" {
+			if err := m.Run(c.Pre); err != nil {
+				panic(err)
+			}
+		}
+		before, _ := m.GetCurSeed()
+		rolls = 0
+		if err := m.Run(c.Src); err != nil {
+			viol("C15:mode-run-error", fmt.Sprintf("unseeded VM, min=%v: %v", min, err))
+			continue
+		}
+		after, _ := m.GetCurSeed()
+		if rolls != 0 || !bytes.Equal(before, after) {
+			viol("C15:mode-consumes-randomness", fmt.Sprintf("unseeded VM, min=%v: %d random draws, shared generator state changed=%v", min, rolls, !bytes.Equal(before, after)))
+		}
+		if v, ok := m.Ret.ReadInt(); !ok || (min && int(v) != mn) || (!min && int(v) != mx) {
+			viol("C15:mode-depends-on-seeding", fmt.Sprintf("unseeded VM, min=%v gives %s; the seeded VM gave %d / %d", min, m.Ret.ToString(), mn, mx))
+		}
+	}
+	// ONE VM whose mode is switched between evaluations (random -> min -> max -> min): every evaluation obeys the mode in
+	// force, whatever the VM did before
+	{
+		cfg := base
+		cfg.Seed = 9
+		m := drv.NewVM(cfg)
+		if c.Pre != "" {
+			if err := m.Run(c.Pre); err != nil {
+				panic(err)
+			}
+		}
+		ds.VerifRollHook = nil // a real random evaluation first
+		_ = m.Run(c.Src)
+		ds.VerifRollHook = func(src *rand.PCGSource, sides ds.IntType) (ds.IntType, bool) {
+			rolls++
+			return 0, false
+		}
+		for step, min := range []bool{true, false, true} {
+			m.Config.DiceMinMode, m.Config.DiceMaxMode = min, !min
+			before, _ := m.GetCurSeed()
+			rolls = 0
+			if err := m.Run(c.Src); err != nil {
+				viol("C15:mode-run-error", fmt.Sprintf("switched VM step %d: %v", step, err))
+				break
+			}
+			after, _ := m.GetCurSeed()
+			v, ok := m.Ret.ReadInt()
+			if !ok || (min && int(v) != mn) || (!min && int(v) != mx) || rolls != 0 || !bytes.Equal(before, after) {
+				viol("C15:mode-switch-on-a-used-vm", fmt.Sprintf("after a random evaluation the VM was switched (step %d) to min=%v: result %s, %d draws, generator moved=%v; a fresh VM gives min %d / max %d", step, min, m.Ret.ToString(), rolls, !bytes.Equal(before, after), mn, mx))
+				break
+			}
+		}
+	}
 	if mn > lo {
 		viol("C15:min-not-lower-bound", fmt.Sprintf("min-mode gives %d but a random roll can give %d (all outcomes %d..%d)", mn, lo, lo, hi))
 	}
